@@ -83,6 +83,9 @@ def stages(tier, rng, only=None):
                                        for k in range(60 if tier == "quick" else 600)]
     out.append(ac.stage("microscopic_penalties", PID, lambda: ac.scaled_cases(ext, EXACT, SCHEMES, 40), _nt))
     out.append(ac.stage("gigantic_penalties", PID, lambda: ac.scaled_cases(ext, EXACT, SCHEMES, -60), _nt))
+    out.append(ac.stage("lexicographic_penalties", PID, lambda: ac.lex_cases(
+        grids.datasets(3, 2)[::6] + [ac.cyclic_dataset(rng, 3, 5, incomplete=k % 3 == 2) for k in range(40 if tier == "quick" else 400)],
+        EXACT), _nt))
     out.append(ac.stage("eleven_plus", PID, lambda: ac.cases(
         [ac.eleven_plus_dataset(rng) for _ in range(6 if tier == "quick" else 40)],
         ["ExactPulp", "Exact(opt)", "Exact(noopt)", "ExactCplex(opt)", "ExactOptim1"], SCHEMES, flags=(1,)), _nt))
